@@ -12,6 +12,7 @@
 (* Vector: program index, variant text; the harness compares its behaviour  *)
 (* with that of the corpus text on the real code.                           *)
 EXTENDS JqLex
+CONSTANTS Shard, NShards     \* a simulation run covers the programs p with p % NShards = Shard
 
 CorpusTexts == JsonDeserialize("c13_corpus.json")
 NProg == Len(CorpusTexts)
@@ -21,7 +22,10 @@ Prep(tx) ==
   LET r == Tokens(tx)
       T == NoNewlines(r.toks)
   IN [ok |-> ~r.err /\ ~r.open /\ Len(T) > 0, T |-> T, nl |-> NlAfter(r.toks), cx |-> Ctx(T), all |-> r.toks]
-Progs == [i \in 1..NProg |-> Prep(CorpusTexts[i])]
+\* (built with Append so that TLC holds an explicit tuple, not a lazily re-evaluated function)
+RECURSIVE PrepAll(_)
+PrepAll(i) == IF i = 0 THEN <<>> ELSE Append(PrepAll(i - 1), Prep(CorpusTexts[i]))
+Progs == PrepAll(NProg)
 
 \* gap i of program p: between token i and i+1; was there a newline originally
 OrigNl(p, i) == Progs[p].nl[i + 1]
@@ -39,17 +43,16 @@ vars == <<pi, mode, g, qs, lead, trail, done>>
 N == Len(Progs[pi].T)
 
 \* ---- random layouts (simulation)
-InitSim == /\ pi \in Usable /\ mode = "sim"
-           /\ lead \in LeadKinds
-           /\ g = <<>> /\ qs = <<>> /\ trail = "none" /\ done = FALSE
+InitSim == /\ pi \in {p \in Usable : p % NShards = Shard} /\ mode = "sim"
+           /\ lead \in LeadKinds /\ trail \in TrailKinds
+           /\ g = <<>> /\ qs = <<>> /\ done = FALSE
 NextSim == /\ ~done
-           /\ UNCHANGED <<pi, mode, lead>>
+           /\ UNCHANGED <<pi, mode, lead, trail>>
            /\ LET k == Len(qs) + 1 IN
               /\ \E q \in AllowedQuotes(Progs[pi].T[k]) : qs' = Append(qs, q)
               /\ IF k < N THEN /\ \E x \in Perm(pi, k) : g' = Append(g, x)
-                               /\ UNCHANGED <<trail, done>>
-                 ELSE /\ g' = g /\ done' = TRUE
-                      /\ trail' \in TrailKinds
+                               /\ UNCHANGED done
+                 ELSE g' = g /\ done' = TRUE
 
 \* ---- systematic layouts
 Modes == {"semi", "swap", "tight", "airy", "crlf", "tabs", "same"}
@@ -91,10 +94,11 @@ Laws == done =>
           /\ (T[i].tag \in {"Print", "Return"} /\ g[i] \in NlKinds) => OrigNl(pi, i)
           /\ (T[i+1].tag = ";") => g[i] \notin NlKinds
           /\ (g[i] = "semi") => (OrigNl(pi, i) /\ T[i].tag # "}")
-          /\ (OrigNl(pi, i) /\ g[i] \in WsKinds) => ~Separator(T, Progs[pi].cx, i)
+          /\ (OrigNl(pi, i) /\ g[i] \in WsKinds) => (~Separator(T, Progs[pi].cx, i) /\ T[i].tag \notin {"Print", "Return"})
 
 Vec == done =>
   Emit([p |-> pi, mode |-> mode, text |-> Variant, minus |-> MinusAdjacent(Progs[pi].T, g),
+        printsemi |-> BarePrintSemi(Progs[pi].T, g),
         semis |-> Cardinality({i \in 1..(N-1) : g[i] = "semi"}),
         swaps |-> Cardinality({i \in 1..N : Progs[pi].T[i].tag = "Str" /\ qs[i] # OrigQuote(pi, i)})])
 
